@@ -220,11 +220,51 @@ fn scenario_files<R: Rng>(rng: &mut R, quick: bool) -> (Vec<FileSpec>, &'static 
     (files, fault)
 }
 
-pub fn run(runner: &mut Runner, bindir: &Path, work: &Path, seed: u64, count: u64, quick: bool) {
+/// Behaviours of System.tla as one-file runs: every event = TRG bank + its chunks in arrival order.
+fn system_scenarios<R: Rng>(rng: &mut R, path: &str) -> Vec<(Vec<FileSpec>, &'static str, Vec<u8>)> {
+    let mut out = Vec::new();
+    for beh in read_ndjson(path) {
+        let clock = beh["clock"].as_u64().unwrap() as u32;
+        let mut events = Vec::new();
+        let mut model_ok = Vec::new();
+        for (k, e) in beh["events"].as_array().unwrap().iter().enumerate() {
+            let ts = (e["ts"].as_u64().unwrap() as u32).wrapping_mul(u32::MAX / clock + 1).wrapping_add(rng.gen_range(0..1000));
+            let mut trg = trg_bank(ts, rng);
+            if e["trgok"].as_u64().unwrap() == 0 {
+                trg.data[79] ^= 0x80;
+            }
+            let rx = e["rx"].as_array().unwrap();
+            let nchunks = 2;
+            let mut banks = vec![trg];
+            for (board, bytes) in crate::mcp::concretize_rx(rng, rx, nchunks) {
+                banks.push(Bank { name: format!("PC{board}"), data: bytes });
+            }
+            // the TRG bank is not always first
+            let rot = rng.gen_range(0..banks.len());
+            banks.rotate_left(rot);
+            events.push(Event { id: 1, serial: k as u32, ts: 1000, banks });
+            model_ok.push(e["ok"].as_u64().unwrap() as u8);
+        }
+        out.push((vec![FileSpec { init: 5000, fin: 5001, ext: "mid", run: u32::MAX, events }], "system", model_ok));
+    }
+    out
+}
+
+pub fn run(runner: &mut Runner, bindir: &Path, work: &Path, seed: u64, count: u64, quick: bool, system: Option<&str>) {
     let mut rng = rng_from(seed, 19);
-    for ci in 0..count {
+    let mut scenarios: Vec<(Vec<FileSpec>, &'static str, Vec<u8>)> = Vec::new();
+    if let Some(p) = system {
+        scenarios.extend(system_scenarios(&mut rng, p));
+    }
+    for _ in 0..count {
         let (files, fault) = scenario_files(&mut rng, quick);
+        scenarios.push((files, fault, vec![]));
+    }
+    for (ci, (files, fault, model_ok)) in scenarios.into_iter().enumerate() {
         for prog in ["vertices", "scalers"] {
+            if fault == "system" && prog == "scalers" {
+                continue;
+            }
             if !runner.wants() {
                 runner.n += 1;
                 continue;
@@ -280,6 +320,7 @@ pub fn run(runner: &mut Runner, bindir: &Path, work: &Path, seed: u64, count: u6
                 ("case", json!(format!("s{ci}"))),
                 ("prog", json!(prog)),
                 ("fault", json!(fault)),
+                ("model_ok", json!(model_ok)),
                 ("files", Value::Array(files_json)),
             ]);
             let out = work.join("out.csv");
